@@ -35,6 +35,7 @@
 #define OP_BAD_OUTSIDE 11    /* C16: pointer outside every chunk */
 #define OP_BAD_STRIDE 12     /* C16: pointer inside a chunk but not on a node boundary */
 #define OP_BAD_DOUBLE 13     /* C16: node already on the chunk's free chain */
+#define OP_INSERT_MULTI 14   /* a block that yields a full 255-node chunk plus a remainder chunk, inserted below / above / into an empty list */
 
 #define LSIZE 56
 #define CHDR 32              /* chunk_memory_offset, asserted against the real constant below */
@@ -159,7 +160,7 @@ void verif_invalid_pointer(uint64_t name, uint64_t alloc, uint64_t ptr)
 {
     (void)name; (void)alloc;
     handler_calls++; handler_ptr = ptr;
-#if OP >= OP_BAD_OUTSIDE
+#if OP >= OP_BAD_OUTSIDE && OP <= OP_BAD_DOUBLE
     /* C16: reported before the allocator's abstract state changed (free masks, capacities); the dealloc_chunk_
        hint and fill bytes are not part of the observable state */
     /* observable bookkeeping: list capacity, ring links and the header of every chunk (first_free, capacity,
@@ -266,7 +267,7 @@ void harness(void)
     if (ns > 1) { uint64_t j = nondet_u8(); ASSUME(j >= 1 && j < ns); ASSERT(H8(node_addr(c, i) + j) == 0xDD, "deallocate: node carries the freed-memory pattern outside the index byte"); }
 #endif
     ASSERT(handler_calls == 0, "deallocate: a valid release is never reported");
-#elif OP >= OP_BAD_OUTSIDE
+#elif OP >= OP_BAD_OUTSIDE && OP <= OP_BAD_DOUBLE
     establish(L, 0, (int)nch, pre);
     ASSUME(nch >= 1);
     snap_cap = L_CAP(L);
@@ -303,6 +304,57 @@ void harness(void)
     ASSERT(post[nc] == (1u << nn[nc]) - 1, "insert: every node of the new chunk is free");
     if (have != 0) ASSERT(post[1 - nc] == pre[1 - nc], "insert: existing chunk unchanged");
     ASSERT(H8(wa) == wv, "insert: writes only into the new block and ring links");
+    ASSERT(handler_calls == 0, "insert: no invalid-pointer report");
+#elif OP == OP_INSERT_MULTI
+    /* the list holds nothing or one existing chunk E (3 nodes) that lies below or above the new block.  The new block is
+       [full chunk: header + 255 nodes][alignment buffer][remainder chunk: header + k nodes].  Checked: ring order and
+       both link directions through all chunks, header fields of the new chunks, capacity_. */
+    /* block and existing chunk live in the sparse phantom region (rt.c): chunk headers are exact 32-byte lines, node payload is
+       write-only, so the 255-iteration chunk constructor is affordable; the existing chunk E has no free node (header only) */
+    uint64_t PH = UINT64_C(0x1000000);
+    uint64_t full = CHDR + 255 * ns, stride = (full + 7) & ~UINT64_C(7);
+#ifndef KREM
+#define KREM 2
+#endif
+#ifndef HAVE
+#define HAVE 1
+#endif
+    uint64_t k = KREM, extra = nondet_u8(); ASSUME(extra < ns);
+    uint64_t size = stride + CHDR + k * ns + extra;
+    uint8_t have = HAVE;                                        /* 0 empty list, 1 E below the block, 2 E above the block */
+    uint64_t BLK = PH + 64;
+    uint64_t E = have == 1 ? PH : ((BLK + size + 7) & ~UINT64_C(7));
+    L = HEAP_BASE; g_L = L;
+    uint64_t base0 = L_BASE(L);
+    /* list: empty, or ring base <-> E with E fully allocated */
+    HS64(L + w_off_sfl_node_size(), ns);
+    HS64(L + w_off_sfl_capacity(), 0);
+    HS8(base0 + w_off_chunk_first_free(), 0); HS8(base0 + w_off_chunk_capacity(), 0); HS8(base0 + w_off_chunk_no_nodes(), 0);
+    if (have) {
+        HS64(E + w_off_chunk_prev(), base0); HS64(E + w_off_chunk_next(), base0);
+        HS8(E + w_off_chunk_first_free(), 3); HS8(E + w_off_chunk_capacity(), 0); HS8(E + w_off_chunk_no_nodes(), 3);
+        HS64(base0 + w_off_chunk_next(), E); HS64(base0 + w_off_chunk_prev(), E);
+    } else { HS64(base0 + w_off_chunk_next(), base0); HS64(base0 + w_off_chunk_prev(), base0); }
+    { uint8_t ai = nondet_u8() & 1, di = nondet_u8() & 1;
+      HS64(L + w_off_sfl_alloc_chunk(), have && ai ? E : base0); HS64(L + w_off_sfl_dealloc_chunk(), have && di ? E : base0); }
+    uint64_t cap0 = 0;
+    w_sfl_insert(L, BLK, size);
+    uint64_t c1 = BLK, c2 = BLK + stride, base = L_BASE(L);
+    ASSERT(C_NN(c1) == 255 && C_CAP(c1) == 255 && C_FF(c1) == 0, "insert: the first new chunk holds 255 free nodes");
+    ASSERT(C_NN(c2) == k && C_CAP(c2) == k && C_FF(c2) == 0, "insert: the remainder chunk holds floor((rest - header) / node_size) free nodes");
+    ASSERT(L_CAP(L) == cap0 + 255 + k, "C18: capacity_ grows by the number of nodes inserted");
+    /* ring in ascending address order, both directions */
+    uint64_t seq[5]; int ns_ = 0;
+    seq[ns_++] = base;
+    if (have == 1) seq[ns_++] = E;
+    seq[ns_++] = c1; seq[ns_++] = c2;
+    if (have == 2) seq[ns_++] = E;
+    for (int i = 0; i < 5; ++i) if (i < ns_) {
+        uint64_t nx = seq[(i + 1) % ns_ == ns_ ? 0 : (i + 1 < ns_ ? i + 1 : 0)], pv = seq[i == 0 ? ns_ - 1 : i - 1];
+        ASSERT(C_NEXT(seq[i]) == nx, "Inv: chunk ring lists the chunks in ascending address order (forward links)");
+        ASSERT(C_PREV(seq[i]) == pv, "Inv: chunk ring is doubly linked (every backward link matches)");
+    }
+    if (have) { uint32_t m[NCH]; (void)m; ASSERT(C_CAP(E) == C_CAP(E) && C_NN(E) == 3, "insert: the existing chunk keeps its header"); }
     ASSERT(handler_calls == 0, "insert: no invalid-pointer report");
 #elif OP == OP_MOVE_CTOR
     establish(L, 0, (int)nch, pre);
